@@ -9,19 +9,20 @@ ap = argparse.ArgumentParser()
 ap.add_argument("-j", type=int, default=5)
 ap.add_argument("--only", default="")
 ap.add_argument("--props", default="")
+ap.add_argument("--dir", default="seeded", help="seeded (every change has a target property) or benign (no check may alarm)")
 a = ap.parse_args()
 ROOT = "/tmp/xw"
 os.makedirs(ROOT, exist_ok=True)
 props = [c["property_id"] for c in json.load(open("/verif/MANIFEST.json"))["checks"]]
 if a.props:
     props = [p for p in props if p in a.props.split(",")]
-seeds = sorted(os.path.basename(d.rstrip("/")) for d in glob.glob("/verif/seeded/*/"))
+seeds = sorted(os.path.basename(d.rstrip("/")) for d in glob.glob(f"/verif/{a.dir}/*/"))
 if a.only:
     seeds = [s for s in seeds if s in a.only.split(",")]
 jobs = queue.Queue()
 for s in seeds:
     jobs.put(s)
-out = open(os.path.join(ROOT, "results.jsonl"), "a")
+out = open(os.path.join(ROOT, f"results-{a.dir}.jsonl"), "a")
 lock = threading.Lock()
 
 def worker(i):
@@ -35,8 +36,8 @@ def worker(i):
         except queue.Empty:
             break
         subprocess.run(["git", "-C", wt, "checkout", "-q", "--", "."], check=True)
-        subprocess.run(["git", "-C", wt, "apply", f"/verif/seeded/{s}/patch.diff"], check=True)
-        target = json.load(open(f"/verif/seeded/{s}/meta.json"))["property"]
+        subprocess.run(["git", "-C", wt, "apply", f"/verif/{a.dir}/{s}/patch.diff"], check=True)
+        target = json.load(open(f"/verif/{a.dir}/{s}/meta.json"))["property"] if os.path.exists(f"/verif/{a.dir}/{s}/meta.json") else "-"
         for p in props:
             r = subprocess.run([os.environ.get("XCHECK", "./check"), p, "--no-evidence"], cwd="/verif", env=env, capture_output=True, text=True)
             lines = [l for l in r.stdout.split("\n") if l.startswith(("VIOLATION", "UNDECIDED", "KNOWN"))]
